@@ -288,7 +288,7 @@ def shard_source(kernels, extra_includes=()):
 
 CLANG = "clang++-14"
 GXX = "g++-12"
-IR_FLAGS = ["-std=c++20", "-O1", "-I" + INC, "-mllvm", "-inline-threshold=100000",
+IR_FLAGS = ["-std=gnu++20", "-O1", "-I" + INC, "-mllvm", "-inline-threshold=100000",
             "-fsanitize=undefined", "-fsanitize-trap=undefined",
             "-fno-sanitize=vptr,function,pointer-overflow",
             "-fno-vectorize", "-fno-slp-vectorize", "-fno-unroll-loops", "-S", "-emit-llvm", "-w"]
@@ -308,9 +308,9 @@ def ir_cmd(src, out, view, ndebug, sanitize=True):
 
 def runner_cmd(src, out, view, ndebug, ubsan=False):
     if view == "gcc":
-        cmd = [GXX, "-std=c++20", "-O2", "-w", "-I" + INC, "-DVERIF_RUNNER"]
+        cmd = [GXX, "-std=gnu++20", "-O2", "-w", "-I" + INC, "-DVERIF_RUNNER"]
     else:
-        cmd = [CLANG, "-std=c++20", "-O1", "-w", "-I" + INC, "-DVERIF_RUNNER"]
+        cmd = [CLANG, "-std=gnu++20", "-O1", "-w", "-I" + INC, "-DVERIF_RUNNER"]
     if ubsan:
         cmd += ["-fsanitize=undefined,float-cast-overflow", "-fno-sanitize-recover=all", "-fno-sanitize=vptr"]
     if ndebug:
